@@ -392,4 +392,77 @@ theorem rebroadcast_fee_slack (w inp dust prev : Nat) (s : FeerateStrategy) (est
 example : feerateBump 2316 888716 330 22725 .forceBump 655 = some (65788, 28405) ∧
     feerateBump 2316 888716 330 28405 .retryPrevious 648 = some (65785, 28405) := by decide
 
+/-! ### Outputs mature into SpendableOutputs that the node's keys can actually spend — with DIFFERENT per-side delays
+
+    Every selector below (`monDelaysOfChannel`, `contestDelay`, `builtToLocalScriptCsv`,
+    `builtHtlcTxOutputScriptCsv`, `monitorHolderScriptCsv`, `delayedDescriptorToSelfDelay`,
+    `fundingSpendLocalCsv`, `htlcSpendToLocalCsv`, `descriptorSpendSequence`,
+    `descriptorWitnessScriptCsv`, `descriptorFor`) is TRANSLATED from the Rust text on every run
+    (tools/gen_maturity.py → Generated/Maturity.lean). -/
+open Ldk.Maturity
+
+/-- **descriptor_matches_script** — for ALL pairs of `to_self_delay`s the two peers may have chosen
+    (`hs` = the node's own, `cs` = the counterparty's): the CSV that chan_utils.rs builds into the
+    node's `to_local` output and into the outputs of its second-stage HTLC transactions is the delay
+    the COUNTERPARTY chose, and it is the same number
+    (a) in the script the monitor looks for (`broadcasted_holder_revokable_script`),
+    (b) in the `DelayedPaymentOutputDescriptor::to_self_delay` it hands out in `SpendableOutputs`,
+    (c) in the witness script and the nSequence with which sign/mod.rs spends that descriptor — so the
+        spend reveals the script the output commits to and satisfies its `OP_CSV`,
+    (d) in the csv of the `FundingSpendConfirmation` / `HTLCSpendConfirmation` events that time the
+        reported balances. -/
+theorem descriptor_matches_script (hs cs : Nat) :
+    let m := monDelaysOfChannel hs cs
+    let script := builtToLocalScriptCsv (contestDelay true hs cs)
+    script = cs ∧ builtHtlcTxOutputScriptCsv (contestDelay true hs cs) = script ∧
+    monitorHolderScriptCsv m = script ∧
+    delayedDescriptorToSelfDelay m = script ∧
+    descriptorWitnessScriptCsv (delayedDescriptorToSelfDelay m) = script ∧
+    descriptorSpendSequence (delayedDescriptorToSelfDelay m) = script ∧
+    fundingSpendLocalCsv m = some script ∧
+    htlcSpendToLocalCsv m true false = some script ∧
+    -- and the delay the node imposes on the counterparty is the node's own choice
+    m.on_counterparty_tx_csv = contestDelay false hs cs ∧ contestDelay false hs cs = hs := by
+  refine ⟨rfl, rfl, rfl, rfl, rfl, rfl, rfl, rfl, rfl, rfl⟩
+
+example : delayedDescriptorToSelfDelay (monDelaysOfChannel 720 432) = 432 ∧
+    monitorHolderScriptCsv (monDelaysOfChannel 720 432) = 432 ∧ (monDelaysOfChannel 720 432).on_counterparty_tx_csv = 720 := by decide
+
+/-- **descriptor_kind_table** — which kind of descriptor `get_spendable_outputs` produces for which of
+    the node's scripts: only the holder's revokeable script yields a CSV-delayed descriptor, the
+    counterparty-commitment `to_remote` a static-payment one, the sweep destination / shutdown script
+    a plain static one; and exactly one descriptor each. -/
+theorem descriptor_kind_table :
+    descriptorFor .holderRevokeable = [.delayedPayment] ∧ descriptorFor .counterpartyPayment = [.staticPayment] ∧
+    descriptorFor .destination = [.staticOutput] ∧ descriptorFor .shutdown = [.staticOutput] := by
+  refine ⟨rfl, rfl, rfl, rfl⟩
+
+/-- **item_csv_is_script_csv** — for every closure configuration and item kind, the csv the
+    monitor's bookkeeping uses is the CSV really in the script of the output that pays the node. -/
+theorem item_csv_is_script_csv (c : CloseCfg) (k : Kind) : itemCsv c k = scriptCsv c k := by
+  cases k <;> cases hc : c.holderClose <;> simp [itemCsv, scriptCsv, hc] <;> rfl
+
+/-- **spendable_exactly_when_final** — in EVERY ledger state reachable from a closure with ANY
+    per-side delays (any items, any ops): an output whose claim confirmed at height `h` is handed to
+    the user (`SpendableOutputs`; it leaves the balances) by the block at height `best` EXACTLY when
+    it is buried by ANTI_REORG_DELAY confirmations and — if its script carries a CSV `d` — a spend with
+    nSequence `d` is BIP-68-final in the next block (`h + d ≤ best + 1`): never earlier (it could not
+    be spent), never later. -/
+theorem spendable_exactly_when_final (c : CloseCfg) (height : Nat) (items : List Item) (ops : List Op) :
+    let l := run (closeWith c height items) ops
+    ∀ e ∈ l.entries, ∀ h net best, e.stage = .claimed h net →
+      ((e.bury best).stage = .matured net ↔
+        (h + ANTI_REORG_DELAY ≤ best + 1 ∧ ∀ d, scriptCsv c e.item.kind = some d → h + d ≤ best + 1)) := by
+  intro l e he h net best hs
+  have hcsv := run_closeWith_csv c height items ops e he
+  rw [bury_claimed_iff best h net e hs, hcsv, item_csv_is_script_csv]
+
+-- Alice (our_to_self_delay 720) closes on Bob (432): her balance confirmed at 100 is spendable from
+-- the block at height 100 + 432 − 1, not one block earlier; closed on BY Bob: after 6 confirmations
+example : let l := closeWith ⟨true, 720, 432⟩ 100 [⟨.toSelf, 50000, 0, 0, none⟩]
+    balances l = [⟨.awaitingConfirmations 531, 50000⟩] ∧
+    spendableTotal (step l (.block 530)) = 0 ∧ spendableTotal (step l (.block 531)) = 50000 := by decide
+example : let l := closeWith ⟨false, 720, 432⟩ 100 [⟨.toSelf, 50000, 0, 0, none⟩]
+    balances l = [⟨.awaitingConfirmations 105, 50000⟩] ∧ spendableTotal (step l (.block 105)) = 50000 := by decide
+
 end Ldk.C07
